@@ -4,6 +4,7 @@ import copy
 from hypothesis import strategies as st
 
 from vgv import gen, model as M, objs, obsutil
+from vgv import prelude
 from vgv.framework import Check, guarded
 
 RULE = ('non-trivial = the view hangs partly off the grid, or the heading is not FORWARD with a non-square or off-centre area, '
@@ -47,6 +48,7 @@ def box_variant(sd):
 
 
 def oracle(case, ctx):
+    prelude.door_first(ctx)
     sd, area, f = case['state'], case['area'], case['f']
     seed = case['seed'] if f == 'stochastic_raytracing' else None
     full = M.full_view(sd, area)
